@@ -401,10 +401,11 @@ pub fn property() -> Property {
             "sums and averages are compared with relative tolerance 1e-9; magnitudes stay finite".into(),
             "an expression reference passed where `any` is declared is a don't-care".into(),
         ],
+        minimise: None,
         subs: vec![
-            Sub::Bytes(BytesSub { name: "direct", f: direct, max_len: 700, quick: Budget { threads: 8, cases: 6000 }, thorough: Budget { threads: 16, cases: 300_000 } }),
-            Sub::Bytes(BytesSub { name: "nested", f: nested, max_len: 2500, quick: Budget { threads: 8, cases: 3000 }, thorough: Budget { threads: 16, cases: 120_000 } }),
-            Sub::Bytes(BytesSub { name: "counting", f: counting, max_len: 500, quick: Budget { threads: 4, cases: 1500 }, thorough: Budget { threads: 16, cases: 50_000 } }),
+            Sub::Bytes(BytesSub { name: "direct", f: direct, max_len: 700, quick: Budget { threads: 8, cases: 6000 }, thorough: Budget { threads: 16, cases: 300_000 }, keep_unreproducible: false }),
+            Sub::Bytes(BytesSub { name: "nested", f: nested, max_len: 2500, quick: Budget { threads: 8, cases: 3000 }, thorough: Budget { threads: 16, cases: 120_000 }, keep_unreproducible: false }),
+            Sub::Bytes(BytesSub { name: "counting", f: counting, max_len: 500, quick: Budget { threads: 4, cases: 1500 }, thorough: Budget { threads: 16, cases: 50_000 }, keep_unreproducible: false }),
         ],
     }
 }
